@@ -1,6 +1,7 @@
 package main
 
 import (
+	"verif/harness/internal/c11"
 	"verif/harness/internal/c10"
 	"verif/harness/internal/c17"
 	"verif/harness/internal/c19"
@@ -8,6 +9,8 @@ import (
 )
 
 func init() {
+	checks["C11"] = c11.Run
+	workers["c11"] = c11.Worker
 	checks["C10"] = c10.Run
 	workers["c10"] = c10.Worker
 	checks["C17"] = c17.Run
